@@ -204,6 +204,8 @@ class Ctx:
         with open(trace_path, "w") as out:
             for pr, sp, tp in procs:
                 o, err = pr.communicate()
+                # the harness removes its data folder itself; a killed or crashed one cannot
+                shutil.rmtree(os.path.join(HARNESS, "run", str(pr.pid)), ignore_errors=True)
                 if pr.returncode != 0:
                     log(o[-1500:])
                     log(err[-3000:])
